@@ -280,13 +280,13 @@ contract("BaseProject.simulate", props=["C05", "C08", "C01", "C07", "C10"],
              ("step:lifecycle-only-advances", "forall(self.workflow.task_list, lambda t: lifecycle_rank(at_head(t.state)) <= lifecycle_rank(t.state))"),
              # C10 clause 1: a project-wide absence step allocates nothing, logs every resource ABSENCE, charges nothing,
              # and only automatic tasks may progress (and only if the flag is set)
-             ("step:absence-allocates-nothing", "implies(not working, forall(self.workflow.task_list, lambda t:"
+             ("step:absence-allocates-nothing", "implies(at_head(self.time) in absence_time_list, forall(self.workflow.task_list, lambda t:"
                   " len(t.allocated_worker_list) <= at_head(len(t.allocated_worker_list)) and len(t.allocated_facility_list) <= at_head(len(t.allocated_facility_list))))"),
-             ("step:absence-logs-absence", "implies(not working, forall(self.organization.team_list, lambda tm: forall(tm.worker_list, lambda w:"
+             ("step:absence-logs-absence", "implies(at_head(self.time) in absence_time_list, forall(self.organization.team_list, lambda tm: forall(tm.worker_list, lambda w:"
                   " w.state_record_list[len(w.state_record_list) - 1] == BaseWorkerState.ABSENCE and w.cost_list[len(w.cost_list) - 1] == 0.0))"
                   " and forall(self.organization.workplace_list, lambda wp: forall(wp.facility_list, lambda f:"
                   " f.state_record_list[len(f.state_record_list) - 1] == BaseFacilityState.ABSENCE and f.cost_list[len(f.cost_list) - 1] == 0.0)))"),
-             ("step:absence-no-manual-progress", "implies(not working, forall(self.workflow.task_list, lambda t: implies(not t.auto_task or not perform_auto_task_while_absence_time,"
+             ("step:absence-no-manual-progress", "implies(at_head(self.time) in absence_time_list, forall(self.workflow.task_list, lambda t: implies(not t.auto_task or not perform_auto_task_while_absence_time,"
                   " t.remaining_work_amount == at_head(t.remaining_work_amount) or (t.remaining_work_amount == 0.0 and at_head(t.remaining_work_amount) < 0.0 + 1e-10))))"),
              # C14: when a step is recorded every component's state agrees with the states of its tasks
              ("step:component-state-follows-tasks", "forall(self.product.component_list, lambda c: implies(all_fin(c), c.state == BaseComponentState.FINISHED)"
